@@ -179,6 +179,24 @@ func exploreWalkArgs(p *Prog, fn *ssa.Function, init map[string]uint32, summaris
 		in.Emit("group", site, ev...)
 		return Tup{}, true
 	}
+	if reg, fm := groupRegistrar(w.In.P); reg != nil && fm != nil {
+		// a registrar that takes the member's parts as parameters: the same event, fields by parameter
+		var names []string
+		for n := range fm {
+			names = append(names, n)
+		}
+		sort.Strings(names)
+		in.Models[fnName(reg)] = func(in *Interp, site ssa.Instruction, cc *ssa.CallCommon, a []AVal) (AVal, bool) {
+			ev := []AVal{}
+			for _, n := range names {
+				if fm[n] < len(a) {
+					ev = append(ev, Tok{Dom: "field", Name: n, Args: []AVal{a[fm[n]]}})
+				}
+			}
+			in.Emit("group", site, ev...)
+			return Tup{}, true
+		}
+	}
 	in.Models["dyncall"] = func(in *Interp, site ssa.Instruction, cc *ssa.CallCommon, a []AVal) (AVal, bool) {
 		if !isCommonValidFn(cc.Value.Type()) {
 			return nil, false
@@ -416,4 +434,47 @@ func outermostAtom(p *Prog) string {
 		}
 	}
 	return res
+}
+
+// groupRegistrar: the function that files a group member (either/botheq) under its group — found by what
+// it does (an update of the validator's valid2FieldsMap), not by its name. For a registrar other than the
+// baseline's initValid2FieldsMap(data *name2Value), fields maps each field of the member record to the
+// parameter it is filled from (record built inside the registrar from scalar parameters).
+func groupRegistrar(p *Prog) (reg *ssa.Function, fields map[string]int) {
+	if fn := p.Method("valid", "validCommon", "initValid2FieldsMap"); fn != nil {
+		return fn, nil
+	}
+	for _, fn := range p.Funcs {
+		if fn.Pkg == nil || fn.Pkg != p.Pkg("valid") || fn.Blocks == nil {
+			continue
+		}
+		has := false
+		fm := map[string]int{}
+		for _, b := range fn.Blocks {
+			for _, ins := range b.Instrs {
+				switch x := ins.(type) {
+				case *ssa.MapUpdate:
+					if ld, ok := x.Map.(*ssa.UnOp); ok {
+						if fa, ok := ld.X.(*ssa.FieldAddr); ok && fieldAddrName(fa) == "valid2FieldsMap" {
+							has = true
+						}
+					}
+				case *ssa.Store:
+					if fa, ok := x.Addr.(*ssa.FieldAddr); ok {
+						if n := namedOf(fa.X.Type()); n != nil && n.Obj().Name() == "name2Value" {
+							for i, prm := range fn.Params {
+								if x.Val == ssa.Value(prm) {
+									fm[fieldAddrName(fa)] = i
+								}
+							}
+						}
+					}
+				}
+			}
+		}
+		if has && len(fm) >= 3 {
+			return fn, fm
+		}
+	}
+	return nil, nil
 }
